@@ -33,6 +33,14 @@ def special_docs():
     res.append(("tags", 'JSIGHT 0.3\n' + "".join("TAG @g%d\n" % i for i in range(5)) +
                 "GET /a\n  Tags @g1 @u1 @u2\n  200 any\nGET /b\n  Tags @u3 @g2\n  200 any\n"))
     res.append(("dup_everything", 'JSIGHT 0.3\nTYPE @a any\nTYPE @a any\nENUM @e\n[1]\nENUM @e\n[1]\nSERVER @s\n  BaseUrl "x"\nSERVER @s\n  BaseUrl "x"\n'))
+    # a Tags directive that repeats a tag next to other tags; many tags on one interaction
+    res.append(("repeated_tags", 'JSIGHT 0.3\nTAG @cats\nTAG @dogs\nTAG @birds\nGET /a\n  Tags @cats @dogs @cats\n  200 any\n'
+                'URL /u\n  Tags @dogs @birds @dogs @cats @birds\n  GET\n    200 any\n  POST\n    Tags @birds @cats @birds\n    200 any\n'
+                'URL /r\n  Protocol json-rpc-2.0\n  Method m\n    Tags @cats @birds @cats @dogs\n    Result\n    {}\n'))
+    res.append(("many_enums_in_type", 'JSIGHT 0.3\n' + "".join('ENUM @e%d\n[\n  "x"\n]\n' % i for i in range(5)) +
+                'TYPE @t\n{\n' + ",\n".join('  "k%d": "x" // {enum: @e%d}' % (i, i) for i in range(5)) + '\n}\nGET /x\n  200 @t\n'))
+    res.append(("many_bases", 'JSIGHT 0.3\n' + "".join('TYPE @b%d\n{\n  "p%d": 1\n}\n' % (i, i) for i in range(5)) +
+                'TYPE @d\n{ // {allOf: ["@b0", "@b1", "@b2", "@b3", "@b4"]}\n  "own": 1\n}\nGET /x\n  200 @d\n'))
     res.append(("or_types", 'JSIGHT 0.3\nTYPE @a\n{\n  "x": @b | @c | @d\n}\nTYPE @b\n1\nTYPE @c\n"s"\nTYPE @d\ntrue\nGET /x\n  200 @a\n'))
     return res
 
@@ -52,6 +60,14 @@ def main(tier):
         except Exception:
             pass
     texts += special_docs() * 3
+    import fixtures, os
+    fx = fixtures.fixture_files()
+    if not thorough:
+        fx = random.Random(sd).sample(fx, 150)
+    for f in fx:
+        data = open(f, "rb").read()
+        if b"INCLUDE" not in data:
+            texts.append(("fixture", data.decode("utf-8", "surrogateescape")))
     cases = [dict(rel.case("d%d" % n, t), reps=K) for n, (_, t) in enumerate(texts)]
     # phase 1: K repetitions in one process
     obs1 = harness("run", cases)
